@@ -247,6 +247,14 @@ def check(case) -> core.Out:
         if ser != codec.ubx_frame(clsid[0:1], clsid[1:2], payload):
             out.viol.append((key + "bytes", f"built {ser.hex()[:80]}, nominal payload {payload.hex()[:64]}"))
             return out
+        if route == "payload" and payload:
+            # the same payload as a bytearray, the mode as an IntEnum member
+            try:
+                alt = pyubx2.UBXMessage(clsid[0:1], clsid[1:2], C.ModeEnum(mode), payload=bytearray(payload)).serialize()
+                if alt != ser:
+                    out.viol.append((key + "bytearray-payload:bytes", f"built {alt.hex()[:80]} from the bytearray"))
+            except Exception as err:  # noqa
+                out.viol.append((key + f"bytearray-payload:build-raises:{type(err).__name__}", f"{err!r}"[:300]))
         if route == "kw" and C.scribble(m):
             # the nominal instance must be buildable again after its owner edited the
             # (mutable) array values of the first one
@@ -408,19 +416,22 @@ def run_shard(spec, ctx, acc):
             if i % spec["of"] != spec["part"]:
                 continue
             case = {"kind": "def", "mode": mode, "defname": name}
-            core.handle(acc, check(case), case, known)
+            core.handle(acc, core.checked(check, case), case, known)
         targets = C.cat()[0]
         for i, t in enumerate(targets):
             if i % spec["of"] != spec["part"]:
                 continue
             case = {"kind": "nominal", "mode": t.mode, "clsid": t.clsid, "defname": t.defname,
                     "route": "payload"}
-            core.handle(acc, check(case), case, known)
+            # under the default interpreter state and under each of the others
+            for env in (None,) + tuple(core.ENVS):
+                core.handle(acc, core.checked(check, case, env=env), case, known)
             if not G.audit_fatal(t.defn) and kw_constructible(t):
                 case = dict(case, route="kw")
-                core.handle(acc, check(case), case, known)
+                for env in (None,) + tuple(core.ENVS):
+                    core.handle(acc, core.checked(check, case, env=env), case, known)
                 case = {"kind": "onename", "mode": t.mode, "clsid": t.clsid, "defname": t.defname}
-                core.handle(acc, check(case), case, known)
+                core.handle(acc, core.checked(check, case), case, known)
             else:
                 acc.skipped["kw-route-not-applicable-by-rule"] += 1
         return
@@ -428,14 +439,14 @@ def run_shard(spec, ctx, acc):
     acc.extra["unmodelled_variants"] = [f"{m}:{k.hex()}" for m, k in C.cat()[2]]
     for modname in TABLE_MODULES:
         case = {"kind": "source", "module": modname}
-        core.handle(acc, check(case), case, known)
+        core.handle(acc, core.checked(check, case), case, known)
     for mk, name in pyubx2.UBX_MSGIDS.items():
         case = {"kind": "msgid", "key": mk, "name": name}
-        core.handle(acc, check(case), case, known)
+        core.handle(acc, core.checked(check, case), case, known)
     for mode, d in VARIANTS.items():
         for mk in d:
             case = {"kind": "variant-key", "mode": mode, "key": mk}
-            core.handle(acc, check(case), case, known)
+            core.handle(acc, core.checked(check, case), case, known)
     # use the library a little (key/value messages with documented and undocumented
     # keys), then audit the tables: "as found in the working tree" includes after use
     from vp.props import c13
@@ -457,4 +468,4 @@ def run_shard(spec, ctx, acc):
                                    "detail": f"table {tname} differs after key/value messages were parsed"})
     for name in pyubx2.UBX_CONFIG_DATABASE:
         case = {"kind": "cfgkey", "name": name}
-        core.handle(acc, check(case), case, known)
+        core.handle(acc, core.checked(check, case), case, known)
